@@ -82,8 +82,15 @@ func (g *callGen) expr(depth int) string {
 	for i := range args {
 		args[i] = g.expr(depth - 1)
 	}
-	sep := []string{", ", ",", " , ", ",\n    "}[g.r.Intn(4)]
+	sep := []string{", ", ",", " , ", ",\n    ", ", /* c */ ", ", /* a, b */ ", " /* x, y */ , ", ", # c, d\n    ", " # e,\n    , "}[g.r.Intn(9)]
+	if g.r.Intn(3) > 0 {
+		sep = []string{", ", ",", " , ", ",\n    "}[g.r.Intn(4)] // comments inside argument lists are the rarer case
+	}
 	inner := strings.Join(args, sep)
+	// the last argument may be expanded (args...)
+	if n > 0 && g.r.Intn(12) == 0 && (strings.HasPrefix(args[n-1], "[") || strings.HasPrefix(args[n-1], "var.") || strings.HasPrefix(args[n-1], "local.")) {
+		inner += "..."
+	}
 	if n > 0 && g.r.Intn(6) == 0 {
 		inner += ","
 	}
